@@ -101,6 +101,8 @@ def check_prog(prog, stats):
     case = {'prog': prog}
     try:
         try:
+            if prog.get('decoys') == 1 and b.prime_with_failure():
+                stats.cls('retrieved-once-before-the-callees-existed')
             R = sigtools.signature(b.target)
         except Exception as e:
             stats.fail('C06/retrieval-raised/%s' % type(e).__name__, case, 'sigtools.signature(TARGET) raised %s: %s for\n%s' % (type(e).__name__, e, b.src))
